@@ -166,25 +166,39 @@ def sample_cases(cases, n=5):
     return [short(c["t"]) for c in cases[::step][:n]]
 
 
-def run_generic(prop, tier, plan, observe, assumptions, rule, keep=lambda c: True):
-    """Common run(): TLC enumeration per plan, parallel replay with `observe`, triage, evidence."""
+def run_generic(prop, tier, plan, observe, assumptions, rule, keep=lambda c: True, extra_phase=None):
+    """Common run(): TLC enumeration per plan, parallel replay with `observe`, triage, evidence.
+
+    extra_phase: (module name, summarise(result dict) -> (violations, coverage dict, extra lines to print)): an
+    additional model of the property, run concurrently in its own process (common.SubprocPhase)."""
     t0 = time.time()
-    cases, stats = run_model(prop, plan(tier, common.seed()))
-    cases = [c for c in cases if keep(c)]
-    res = common.pmap(observe, cases)
-    viol = [v for r in res for v in r]
-    nontriv = {json.dumps(c["t"], sort_keys=True) for c in cases if nontrivial(c)}
-    cov = {
-        "states": stats["distinct"], "transitions": stats["states"],
-        "traces_validated_against_impl": len(cases),
-        "evaluations": len(cases), "distinct_nontrivial": len(nontriv),
-        "rule": rule,
-        "samples": sample_cases(cases, 6),
-        "exhaustive": False,
-        "tlc_runs": stats["tlc_runs"],
-        "checker_cmd": "tlc MC_Ops.tla (spec/MC_Ops.tla, Expr.tla, Mat.tla, PyIndex.tla, Annot.tla, generated Catalog.tla)",
-    }
-    return common.finish(prop, tier, t0, cov, viol, assumptions)
+    sub = common.SubprocPhase(extra_phase[0]).start(tier) if extra_phase else None
+    try:
+        cases, stats = run_model(prop, plan(tier, common.seed()))
+        cases = [c for c in cases if keep(c)]
+        res = common.pmap(observe, cases)
+        viol = [v for r in res for v in r]
+        nontriv = {json.dumps(c["t"], sort_keys=True) for c in cases if nontrivial(c)}
+        cov = {
+            "states": stats["distinct"], "transitions": stats["states"],
+            "traces_validated_against_impl": len(cases),
+            "evaluations": len(cases), "distinct_nontrivial": len(nontriv),
+            "rule": rule,
+            "samples": sample_cases(cases, 6),
+            "exhaustive": False,
+            "tlc_runs": stats["tlc_runs"],
+            "checker_cmd": "tlc MC_Ops.tla (spec/MC_Ops.tla, Expr.tla, Mat.tla, PyIndex.tla, Annot.tla, generated Catalog.tla)",
+        }
+    except BaseException:
+        if sub is not None and sub.proc.poll() is None:
+            sub.proc.kill()
+        raise
+    extra = ()
+    if sub is not None:
+        v2, c2, extra = extra_phase[1](sub.finish())
+        viol += v2
+        cov.update(c2)
+    return common.finish(prop, tier, t0, cov, viol, assumptions, extra_print=extra)
 
 
 def replay_generic(prop, observe, path):
